@@ -554,6 +554,42 @@ theorem loader_wrapper_keeps_ref (b : String × String × String × Nat) (hb : b
     runTops ref regRef (topsOf b.1) cs cur = cur :=
   runTops_inert ref regRef _ (wrapper_blocks_inert b hb hne) cs cur
 
+/-- the in-progress keys and the deferred hand-over as modelled: the key is the kind's prefix and the node's own
+    text; `unvisitRef(key, value)` is deferred with the block's key and the resolved node (the path item itself, a
+    wrapper's `Value`) -/
+theorem ref_keys_as_modelled :
+    c03RefKeys =
+      [("resolveHeaderRef", "\"Header \" + ref", "key", "component.Value", 5),
+       ("resolveParameterRef", "\"Parameter \" + ref", "key", "component.Value", 5),
+       ("resolveRequestBodyRef", "\"RequestBody \" + ref", "key", "component.Value", 5),
+       ("resolveResponseRef", "\"Response \" + ref", "key", "component.Value", 5),
+       ("resolveSchemaRef", "\"Schema \" + ref", "key", "component.Value", 5),
+       ("resolveSecuritySchemeRef", "\"SecurityScheme \" + ref", "key", "component.Value", 5),
+       ("resolveExampleRef", "\"Example \" + ref", "key", "component.Value", 5),
+       ("resolveCallbackRef", "\"Callback \" + ref", "key", "component.Value", 5),
+       ("resolveLinkRef", "\"Link \" + ref", "key", "component.Value", 5),
+       ("resolvePathItemRef", "\"PathItem \" + ref", "key", "pathItem", 6)] := by decide
+
+/-- the hand-over is set up after the last statement of the block that touches the node's `Ref` -/
+theorem ref_register_after_restore :
+    ∀ k ∈ c03RefKeys, ∀ t ∈ c03RefTops, t.fn = k.1 → (t.restore || t.overwrite || t.litCopy) = true → t.idx < k.2.2.2.2 := by
+  decide
+
+/-- State kept between calls: for every history of resolver calls on one loader — blocks that run with any control
+    flow, nodes queued on keys in progress and overwritten later by the deferred callback with the owner's node, in
+    any order and number — every node keeps the `Ref` text it was written with. No proviso on the registered value. -/
+theorem loader_history_keeps_ref (b : String × String × String × Nat) (hb : b ∈ c03RefBlocks) (regRef : String)
+    (es : List REvent) (q : List (String × String)) (hs : es.all REvent.sync = true) (hq : queuedOK q = true) :
+    queuedOK (runEvents (topsOf b.1) regRef es q).1 = true ∧ queuedOK (runEvents (topsOf b.1) regRef es q).2 = true :=
+  runEvents_keeps_ref _ (ref_blocks_ok b hb) regRef es q hs hq
+
+/-- non-vacuity: a path item queued on the key of a chain member, then the owner's block, which copies a target
+    carrying another text and restores its own -/
+example :
+    runEvents (topsOf "resolvePathItemRef") "" [.queue "#/paths/~1b",
+        .run "#/paths/~1b" [.skip, .skip, .skip, .skip, .write "#/paths/~1c"]] [] =
+      ([("#/paths/~1b", "#/paths/~1b")], [("#/paths/~1b", "#/paths/~1b")]) := by decide
+
 /-- non-vacuity: the path item's block does replace the node and does restore the text; and the check is not
     trivially true — the block with the restore folded into one branch (the shape of C03-r3m3) fails it and has a run
     that ends with the target's text -/
